@@ -35,6 +35,7 @@ type specLoc struct {
 	whole  bool // whole backing array (s[*])
 	mapRef string
 	mapTy  *types.Map
+	off, ln string // window of a wholly assigned slice
 }
 
 var untypedInt = types.Typ[types.UntypedInt]
@@ -516,6 +517,9 @@ func (e *SpecEnv) callExpr(n *ast.CallExpr) Val {
 		case "isSentinel":
 			e.u.em.pre("(declare-fun sentinelId (Int) Int)")
 			return Val{T: fmt.Sprintf("(> (sentinelId %s) 0)", e.expr(n.Args[0]).T), Ty: types.Typ[types.Bool]}
+		case "sameArray":
+			a, b := e.expr(n.Args[0]), e.expr(n.Args[1])
+			return Val{T: fmt.Sprintf("(and (= (s_base %s) (s_base %s)) (not (= (s_base %s) 0)))", a.T, b.T, a.T), Ty: types.Typ[types.Bool]}
 		case "allocated":
 			// reference existed in the pre-state
 			v := e.expr(n.Args[0])
@@ -1038,7 +1042,7 @@ func (e *SpecEnv) lvalue(x ast.Expr) []specLoc {
 			return nil
 		}
 		if id, ok := n.Index.(*ast.Ident); ok && id.Name == "all" {
-			return []specLoc{{loc: &Loc{Kind: LElem, RootTy: sl.Elem(), Ref: fmt.Sprintf("(s_base %s)", a.T)}, whole: true}}
+			return []specLoc{{loc: &Loc{Kind: LElem, RootTy: sl.Elem(), Ref: fmt.Sprintf("(s_base %s)", a.T)}, whole: true, off: fmt.Sprintf("(s_off %s)", a.T), ln: fmt.Sprintf("(s_cap %s)", a.T)}}
 		}
 		i := e.expr(n.Index)
 		return []specLoc{{loc: &Loc{Kind: LElem, RootTy: sl.Elem(), Ref: fmt.Sprintf("(s_base %s)", a.T), Idx: fmt.Sprintf("(+ (s_off %s) %s)", a.T, i.T)}}}
